@@ -18,8 +18,8 @@ def main():
     wd = common.workdir(PID)
     cfg = os.path.join(wd, "c20.cfg")
     with open(cfg, "w") as f:
-        f.write("CONSTANTS\n  Alphabet = {97, 98}\n  MaxLenS = %d\n  MaxStart = %d\n  MaxCount = 255\n  StrSize0 = 32\nINIT Init\nNEXT Next\nCHECK_DEADLOCK FALSE\n" % (
-            4 if thorough else 3, 5 if thorough else 4))
+        f.write("CONSTANTS\n  Alphabet = %s\n  MaxLenS = %d\n  MaxStart = %d\n  MaxCount = 255\n  StrSize0 = 32\nINIT Init\nNEXT Next\nCHECK_DEADLOCK FALSE\n" % (
+            "{97, 98, 99}" if thorough else "{97, 98}", 4 if thorough else 3, 6 if thorough else 4))
     r = rep.tlc(common.run_tlc("Trace_C20", cfg=cfg, env={"LIBTOKS": common.lib_tokens_file(wd)}, wd=wd, timeout=3000))
     n = 0
     for st in r.states:
@@ -41,7 +41,7 @@ def main():
     rep.cov["traces_validated_against_impl"] = n
     if n < 100:
         raise common.MachineryError("only %d library runs were judged" % n)
-    return rep.finish({"exhaustive": True, "bounds": {"alphabet": "ab", "string_length": 4 if thorough else 3, "start": "1..%d" % (5 if thorough else 4), "count": "0..255"}})
+    return rep.finish({"exhaustive": True, "bounds": {"alphabet": "abc" if thorough else "ab", "string_length": 4 if thorough else 3, "start": "1..%d" % (6 if thorough else 4), "count": "0..255"}})
 
 
 if __name__ == "__main__":
